@@ -506,6 +506,11 @@ static int32_t pstm_mul_comba16(const pstm_int *A, const pstm_int *B, pstm_int *
     MULADD(at[15], at[31]);
     COMBA_STORE(C->dp[30]);
     COMBA_STORE2(C->dp[31]);
+    /* clear digits of the old value of C above the result */
+    for (c0 = 32; c0 < C->used; c0++)
+    {
+        C->dp[c0] = 0;
+    }
     C->used = 32;
     C->sign = A->sign ^ B->sign;
     pstm_clamp(C);
@@ -808,6 +813,11 @@ static int32_t pstm_mul_comba32(const pstm_int *A, const pstm_int *B, pstm_int *
     MULADD(at[31], at[63]);
     COMBA_STORE(C->dp[62]);
     COMBA_STORE2(C->dp[63]);
+    /* clear digits of the old value of C above the result */
+    for (c0 = 64; c0 < C->used; c0++)
+    {
+        C->dp[c0] = 0;
+    }
     C->used = 64;
     C->sign = A->sign ^ B->sign;
     pstm_clamp(C);
